@@ -29,6 +29,7 @@ pub fn run(args: &[String]) {
         Some("kernoff-bytes") => kernoff_bytes_cmd(args),
         Some("deep-chain") => deep_chain_cmd(args),
         Some("vf2-probe") => vf2_probe_cmd(),
+        Some("multmark") => multmark_cmd(),
         _ => {
             eprintln!("c07 cases|font|one|kernoff-corpus|deep-chain");
             std::process::exit(2)
@@ -1635,4 +1636,128 @@ mod geo {
             }
         }
     }
+}
+
+/// Marks behind the outputs of a MultipleSubst sequence, with a MarkToLigature and a MarkToBase lookup in one feature (both
+/// orders): MarkToBase attaches to the FIRST glyph of the sequence (the later ones are passed over, unless a mark stands
+/// directly before them or the lookup covers them as bases themselves), MarkToLigature to the nearest non-mark glyph when that is a covered ligature; each lookup makes
+/// its own search.  Exhaustive over all texts of length 2..4 over {x (-> P Q), b, L, M} with a mark, both directions, both
+/// lookup orders, Q in or out of the base coverage.  Judged geometrically (the mark's anchor meets the target's anchor).
+fn multmark_cmd() {
+    // glyphs: 1 x, 2 b, 3 L, 4 M, 5 P, 6 Q
+    let (mut cases, mut attached, mut bad) = (0u64, 0u64, 0u64);
+    for order in 0..2u32 {
+        for q_covered in [false, true] {
+            let mut spec = FontSpec::basic(8);
+            spec.hadv = vec![500, 510, 520, 700, 0, 430, 450, 500];
+            spec.gdef = Some(Gdef { glyph_classes: vec![(1, 1), (2, 1), (3, 2), (4, 3), (5, 1), (6, 1)], mark_attach_classes: vec![], mark_glyph_sets: vec![] });
+            spec.gsub = Some(Layout::single_feature(*b"ccmp", vec![Lookup::one(SubstSubtable::Multiple { coverage: Coverage::Glyphs(vec![1]), sequences: vec![vec![5, 6]] })]));
+            let mark_anchor = Anchor { x: 20, y: 30 };
+            let lig_anchors = vec![vec![Some(Anchor { x: 100, y: 600 })], vec![Some(Anchor { x: 450, y: 620 })]];
+            let mut bases: Vec<u16> = vec![2, 5];
+            if q_covered {
+                bases.push(6);
+            }
+            let base_anchor = |g: u16| Anchor { x: 200 + 10 * g as i16, y: 500 + 7 * g as i16 };
+            let ml = Lookup::one(PosSubtable::MarkLig { mark_coverage: Coverage::Glyphs(vec![4]), lig_coverage: Coverage::Glyphs(vec![3]), class_count: 1, marks: vec![(0, mark_anchor)], ligatures: vec![lig_anchors.clone()] });
+            let mb = Lookup::one(PosSubtable::MarkBase { mark_coverage: Coverage::Glyphs(vec![4]), base_coverage: Coverage::Glyphs(bases.clone()), class_count: 1, marks: vec![(0, mark_anchor)], bases: bases.iter().map(|g| vec![Some(base_anchor(*g))]).collect() });
+            spec.gpos = Some(Layout::single_feature(*b"mark", if order == 0 { vec![ml, mb] } else { vec![mb, ml] }));
+            let data = build(&spec);
+            for len in 2..=4u32 {
+                for code in 0..4u32.pow(len) {
+                    let t: Vec<u16> = (0..len).map(|i| 1 + ((code / 4u32.pow(i)) % 4) as u16).collect();
+                    if !t.contains(&4) {
+                        continue;
+                    }
+                    for dir in [Direction::LeftToRight, Direction::RightToLeft] {
+                        // the glyph string after GSUB, in logical order: (glyph, multiplied, component)
+                        let mut g: Vec<(u16, bool, u8)> = Vec::new();
+                        for x in &t {
+                            if *x == 1 {
+                                g.push((5, true, 0));
+                                g.push((6, true, 1));
+                            } else {
+                                g.push((*x, false, 0));
+                            }
+                        }
+                        // expected target of every mark: (index, anchor) or None
+                        let mut want: Vec<Option<(usize, Anchor)>> = vec![None; g.len()];
+                        for i in 0..g.len() {
+                            if g[i].0 != 4 {
+                                continue;
+                            }
+                            let prev_nonmark = |from: usize| -> Option<usize> { (0..from).rev().find(|j| g[*j].0 != 4) };
+                            let lig_t = prev_nonmark(i).filter(|j| g[*j].0 == 3).map(|j| (j, lig_anchors[1][0].unwrap()));
+                            let mut j = prev_nonmark(i);
+                            while let Some(k) = j {
+                                // a later glyph of the sequence is passed over - unless the lookup covers it as a base itself
+                                let reject = g[k].1 && g[k].2 != 0 && k != 0 && g[k - 1].0 != 4 && g[k - 1].1 && g[k].2 == g[k - 1].2 + 1 && !bases.contains(&g[k].0);
+                                if !reject {
+                                    break;
+                                }
+                                j = prev_nonmark(k);
+                            }
+                            let base_t = j.filter(|k| bases.contains(&g[*k].0)).map(|k| (k, base_anchor(g[k].0)));
+                            // at most one of the two applies here (L is never a base, a base never a ligature)
+                            want[i] = lig_t.or(base_t);
+                        }
+                        let req = Req { text: t.iter().enumerate().map(|(i, x)| (pua(*x as u32 - 1), i as u32)).collect(), dir: Some(dir), script: Some(if dir == Direction::RightToLeft { "Phnx" } else { "Latn" }.to_string()), flags: 3, level: 2, ..Default::default() };
+                        cases += 1;
+                        let d2 = data.clone();
+                        let rq = req.clone();
+                        let out = match catch(move || { let f = rustybuzz::Face::from_slice(&d2, 0).unwrap(); crate::shp::shape_req(&f, &rq) }) {
+                            Ok(o) => o,
+                            Err(e) => {
+                                bad += 1;
+                                println!("multmark-fail panic {} order={} q_covered={} req=[{}]", e, order, q_covered, crate::shp::fmt_req(&req));
+                                continue;
+                            }
+                        };
+                        if out.len() != g.len() {
+                            bad += 1;
+                            println!("multmark-fail glyph-count {}!={} order={} q_covered={} req=[{}]", out.len(), g.len(), order, q_covered, crate::shp::fmt_req(&req));
+                            continue;
+                        }
+                        // visual order -> logical index
+                        let logical = |v: usize| if dir == Direction::RightToLeft { g.len() - 1 - v } else { v };
+                        let mut pen = vec![(0i64, 0i64); out.len()];
+                        let mut x = 0i64;
+                        for v in 0..out.len() {
+                            pen[logical(v)] = (x + out[v].xo as i64, out[v].yo as i64);
+                            x += out[v].xa as i64;
+                        }
+                        let mut msg = None;
+                        for i in 0..g.len() {
+                            if g[i].0 != 4 {
+                                continue;
+                            }
+                            let v = logical(i);
+                            match want[i] {
+                                Some((j, a)) => {
+                                    attached += 1;
+                                    let (mx, my) = (pen[i].0 + mark_anchor.x as i64, pen[i].1 + mark_anchor.y as i64);
+                                    let (tx, ty) = (pen[j].0 + a.x as i64, pen[j].1 + a.y as i64);
+                                    if (mx, my) != (tx, ty) {
+                                        msg = Some(format!("mark {} anchor at ({},{}) target glyph {} anchor at ({},{})", i, mx, my, j, tx, ty));
+                                    }
+                                }
+                                None => {
+                                    if out[v].xo != 0 || out[v].yo != 0 {
+                                        msg = Some(format!("mark {} has no target but offset ({},{})", i, out[v].xo, out[v].yo));
+                                    }
+                                }
+                            }
+                        }
+                        if let Some(m) = msg {
+                            bad += 1;
+                            if bad <= 8 {
+                                println!("multmark-fail {} order={} q_covered={} req=[{}] out={}", m, order, q_covered, crate::shp::fmt_req(&req), crate::shp::fmt_g(&out));
+                            }
+                        }
+                    }
+                }
+            }
+        }
+    }
+    println!("multmark-summary cases={} attached_marks={} bad={}", cases, attached, bad);
 }
